@@ -189,3 +189,5 @@ def _shared_r4(ctx):
     """Rules of other properties that are necessary conditions of this one too (found by seeding round 4)."""
     with ctx.rule('R08.9', "everything queued before the server's Close is still written: nothing but the write loop shrinks the output buffer (shared with C01)", floor=1) as r:
         A.include(ctx, r, 'c01', 'R01.3', pick=('shrinkers',))
+    with ctx.rule('R08.10', "both connection-close arms tell each slot's consumers before they release that slot's caller, so the close is reported as what it was (shared with C11)", floor=2) as r:
+        A.include(ctx, r, 'c11', 'R11.7')
